@@ -164,7 +164,14 @@ fn decorate(src: &str, t: &mut Tape) -> String {
         5 => out.push('\u{feff}'),
         _ => out.push_str("\n\n\n"),
     }
-    let body = if t.flag() { src.replace('\n', "\r\n") } else { src.to_string() };
+    // line ends: LF, CRLF, CR alone (an old Mac file), or LF with stray CRs inside the lines - what the parser
+    // library counts as a column and what it hands out as "the line" need not agree then
+    let body = match t.pick(6) {
+        0 | 1 => src.replace('\n', "\r\n"),
+        2 => src.replace('\n', "\r"),
+        3 => src.replace("  ", " \r").replace(';', ";\r\r"),
+        _ => src.to_string(),
+    };
     out.push_str(&body);
     out
 }
